@@ -169,6 +169,8 @@ def make_builtins(interp):
             return False
         if isinstance(cls, TypeTag):
             return cls.check(obj)
+        if cls is slice:
+            return isinstance(obj, slice)
         if isinstance(cls, Opaque):
             if isinstance(obj, (Instance, NDArr)) or is_scalar(obj) or isinstance(obj, (str, list, tuple, dict)) or obj is None:
                 return False if "numbers" not in cls.what else (is_num(obj))
@@ -757,6 +759,19 @@ def make_numpy(interp):
             return res
         return np_moveaxis(res, 0, axis)
 
+    def np_searchsorted(seq, v, side="left"):
+        items = interp.iterate(seq)
+        k = 0
+        for x in items:
+            c = compare("<", x, v) if side == "left" else compare("<=", x, v)
+            if not isinstance(c, bool):
+                c = interp.ctx.branch(c)
+            if c:
+                k += 1
+            else:
+                break
+        return k
+
     def np_mod(a, b):
         return _lift2(lambda x, y: binop("%", x, y), "mod")(a, b)
 
@@ -784,6 +799,7 @@ def make_numpy(interp):
         "divmod": lambda a, b: (_lift2(lambda x, y: to_real(floor_real(binop("/", x, y))), "fdiv")(a, b), np_mod(a, b)),
         "logical_not": _lift1(logical_not, "not", "bool"), "conjugate": lambda x: x, "conj": lambda x: x,
         "real": lambda x: x, "stack": np_stack,
+        "searchsorted": np_searchsorted, "copy": lambda x, **k: x.copy() if isinstance(x, NDArr) else x,
         "pi": PI, "inf": INF, "newaxis": None, "nan": Opaque("nan"), "e": Opaque("np.e"),
         "ndarray": TypeTag("ndarray", None), "number": TypeTag("number", None), "double": TypeTag("float", _to_float),
         "float64": TypeTag("float", _to_float), "int64": TypeTag("int", _to_int), "integer": TypeTag("Integral", None),
@@ -910,6 +926,12 @@ def builtin_getattr(interp, obj, name):
     if isinstance(obj, slice):
         if name in ("start", "stop", "step"):
             return getattr(obj, name)
+        if name == "indices":
+            def indices(n):
+                if any(is_sym(x) for x in (obj.start, obj.stop, obj.step, n)):
+                    raise Unsupported("slice.indices with symbolic arguments")
+                return obj.indices(n)
+            return indices
     if isinstance(obj, RangeVal):
         if name in ("start", "stop", "step"):
             return getattr(obj, name)
